@@ -119,7 +119,7 @@ def check(case):
                 Xn, Yn = xo, np.frombuffer(tr.y_out)
                 F = ri.euler_residual(Xn, Yn, X0, Y0, tr.dt, tr.rho)
                 g_scale = float(np.sum(np.abs(Xn)) + np.sum(np.abs(X0)) + tr.dt * np.sum(np.abs(ri.aug_lag_dx(Xn, Yn, tr.rho))) + np.sum(np.abs(Yn)) + np.sum(np.abs(Y0)) + tr.dt * np.sum(np.abs(ri.cons(Xn))))
-                bound = NEWTON_TOL * (1 + 1e-6) + 1e-8 * np.sqrt(ri.N) + 1e-12 * g_scale
+                bound = params.newton_tol * (1 + 1e-6) + 1e-8 * np.sqrt(ri.N) + 1e-12 * g_scale
                 fn = float(np.linalg.norm(F))
                 if not fn <= bound:
                     return V("exact-residual", f"Exact control accepted step {t} with |F(z+)|={fn:.3e} > {bound:.3e} (dt={tr.dt}, rho={tr.rho})")
